@@ -30,10 +30,10 @@ BOUNDS = {"quick": "2 start models; full extension alphabet", "thorough": "start
 
 
 def states(tier):
-    st = [("pheno", ()), ("pheno_oral", ())]
+    st = [("pheno_nocov", ()), ("pheno_nocov_oral", ())]
     if tier == "thorough":
         for lab in ("periph_add", "elim_mm", "transits_3", "lag_on", "abs_zo", "bio_add"):
-            st.append(("pheno_oral", (lab,)))
+            st.append(("pheno_nocov_oral", (lab,)))
     return st
 
 
@@ -122,7 +122,7 @@ def run_case(model, case):
                     return f(m, *a, **kw), "ok"
         except mgraph.CallTimeout:
             return None, "refused:timeout"
-        except (ValueError, NotImplementedError, ModelError, KeyError) as e:
+        except Exception as e:  # C09 is not about totality: any refusal ends the case
             return None, f"refused:{type(e).__name__}"
 
     try:
@@ -134,6 +134,8 @@ def run_case(model, case):
             if m2 is None:
                 return st, [], 0
             thetas = new_params(model, m2)
+            if not thetas:
+                return "n/a:no-new-parameter", [], 0
             vals = {t: v for t, v in zip(thetas, (0.37, -0.21, 0.13, 0.29, -0.17, 0.23, 0.31, -0.11))}
             rec0 = first_record(model)
             cats = sorted(set(float(x) for x in model.dataset[cov]))
@@ -298,9 +300,11 @@ def run_case(model, case):
             table = {
                 "additive": (pm.set_additive_error_model, {}), "proportional": (pm.set_proportional_error_model, {}),
                 "combined": (pm.set_combined_error_model, {}),
-                "additive_log": (pm.set_additive_error_model, {"data_trans": "log(Y)"}),
-                "proportional_log": (pm.set_proportional_error_model, {"data_trans": "log(Y)"}),
-                "combined_log": (pm.set_combined_error_model, {"data_trans": "log(Y)"}),
+                # the model already has a proportional error model; the setters return such a model unchanged, so the
+                # log-scale variants start from the model without error model
+                "additive_log": (lambda m, **kw: pm.set_additive_error_model(pm.remove_error_model(m), **kw), {"data_trans": "log(Y)"}),
+                "proportional_log": (lambda m, **kw: pm.set_proportional_error_model(pm.remove_error_model(m), **kw), {"data_trans": "log(Y)"}),
+                "combined_log": (lambda m, **kw: pm.set_combined_error_model(pm.remove_error_model(m), **kw), {"data_trans": "log(Y)"}),
                 "power": (lambda m: pm.set_power_on_ruv(pm.set_proportional_error_model(m)), {}),
                 "iiv_on_ruv": (pm.set_iiv_on_ruv, {}), "weighted": (pm.set_weighted_error_model, {}), "dtbs": (pm.set_dtbs_error_model, {}),
                 "time_varying": (lambda m: pm.set_time_varying_error_model(m, cutoff=3.0), {}),
@@ -380,7 +384,6 @@ def check_error_model(m2, em):
             if em == "additive" and len(epss) != 1:
                 fails.append(f"additive error model has epsilons {epss}")
         elif em in ("additive_log", "proportional_log", "combined_log"):
-            import math
 
             # on the log scale: Y = log(F) + g(F)*eps
             base_f = amount / env0.get("S1", env0.get("VC", 1.0)) if False else None
@@ -429,7 +432,8 @@ def check_absorption(m2, a):
             fails.append(f"{a}: the dose is not a zero-order infusion with a duration")
         elif "MAT" in env:
             d = ev(dur, env)
-            if not close(d, 2 * env["MAT"], 1e-9):
+            ok = close(d, 2 * env["MAT"], 1e-9) or (a == "abs_seq" and "MDT" in env and close(d, 2 * env["MDT"], 1e-9))
+            if not ok:
                 fails.append(f"{a}: infusion duration {d:.8g} != 2*MAT = {2 * env['MAT']:.8g}")
     if a.startswith("transits"):
         n = 1 if a == "transits_1" else 3
